@@ -74,6 +74,9 @@ int main(int argc, char** argv) {
         if (ali) cfg.push_back({al.alias, v ? "777" : "4242"});
         expect_ok(kase, std::string("C20/alias/") + al.alias + (cur == 1 || cur == 3 ? "/current-on-cli" : cur == 2 ? "/current-in-cfg" : "/alone"), cli, cfg);
     }
+    for (auto& al : ALIASES) { const Opt* o = find(al.canonical);
+        std::string kase = std::string("alias ") + al.alias + " current-on-cli-with-default-value";
+        if (R.mine(kase)) expect_ok(kase, std::string("C20/alias/") + al.alias + "/current-on-cli", {{al.canonical, o->def}}, {{al.alias, "4242"}}); }
     // an alias on the command line is an unknown option there
     for (auto& al : ALIASES) { std::string kase = std::string("alias-on-cli ") + al.alias; if (R.mine(kase)) expect_error(kase, "C20/unknown/alias-on-cli", {{al.alias, "5"}}, {}); }
     // compatibility options: any value, no effect
